@@ -141,7 +141,7 @@ def Field.read (env : Env) (flex rh tagged : Bool) : Field → Dec Value
     if rh && m.isClientId then readNullableLegacyString
     else Shape.read env flex tagged m sh
 def Shape.read (env : Env) (flex tagged : Bool) (m : FieldMeta) : Shape → Dec Value
-  | .prim _ o => primFieldReader env m flex (o && !tagged)
+  | .prim _ o => primFieldReader env m flex (o && (env.nullableTaggedReader || !tagged))
   | .primArr _ e a => arrayReader flex (primFieldReader env m flex (e || a))
   | .ent s o => if o then readNullable (Schema.read env s) else Schema.read env s
   | .entArr s _ => arrayReader flex (Schema.read env s)
@@ -253,7 +253,7 @@ def Field.readerBuildErr (env : Env) (flex rh : Bool) : Field → Option Err
       | some e => some e
       | none => if tag.isSome then exceptErr (Field.taggedDefault env (.mk m sh)) else none
 def Shape.readerBuildErr (env : Env) (flex tagged : Bool) (m : FieldMeta) : Shape → Option Err
-  | .prim _ o => exceptErr (do let k ← m.schemaFieldType; getReader k flex (o && !tagged))
+  | .prim _ o => exceptErr (do let k ← m.schemaFieldType; getReader k flex (o && (env.nullableTaggedReader || !tagged)))
   | .primArr _ e a => exceptErr (do let k ← m.schemaFieldType; getReader k flex (e || a))
   | .ent s _ => Schema.readerBuildErr env s
   | .entArr s _ => Schema.readerBuildErr env s
